@@ -833,6 +833,16 @@ func (x *Exec) unwind(fr *Frame, st *State) {
 		fc := x.curFunc
 		if fc.contract == nil || fc.contract.Panics != "may" {
 			x.oblige(st2, "panic", x.prog.sourceLine(st2.panicPos), TFalse, []string{"C13"}, st2.panicPos)
+		} else if len(fc.contract.OnPanic) > 0 {
+			ev := x.newEval(fr, st2, nil)
+			for _, p := range fr.fn.Params {
+				ev.bind[p.Name()] = fr.env[p]
+			}
+			ev.bind["PANICKING"] = &Prim{T: TTrue}
+			ev.bind["RECOVERED"] = &Prim{T: TFalse}
+			for _, cl := range fc.contract.OnPanic {
+				x.oblige(st2, "onpanic", cl.Label, ev.boolExpr(cl.Expr), cl.Tags, token.NoPos)
+			}
 		}
 		x.endPath(st2, "panic")
 	})
